@@ -194,7 +194,11 @@ def _install():
     import builtins
     import tempfile
     import fsic
-    os.chdir(tempfile.mkdtemp(prefix='c13_worker_'))
+    _wd = tempfile.mkdtemp(prefix='c13_worker_')
+    os.chdir(_wd)
+    import atexit
+    import shutil
+    atexit.register(shutil.rmtree, _wd, True)          # the worker's private cwd does not outlive the worker
     import warnings
     _BASE_FILTERS[:] = list(warnings.filters)       # after importing fsic, BEFORE anything is parsed
     import unicodedata      # noqa: F401 - CPython imports it lazily the first time compile() meets a non-ASCII identifier
